@@ -9,6 +9,13 @@ verus! {
 pub assume_specification<T, F: FnOnce(T) -> bool> [Option::<T>::is_some_and] (o: Option<T>, f: F) -> (r: bool)
     requires o matches Some(v) ==> f.requires((v,)),
     ensures match o { Some(v) => f.ensures((v,), r), None => !r };
+pub assume_specification<T, P: FnOnce(&T) -> bool> [Option::<T>::filter] (o: Option<T>, p: P) -> (r: Option<T>)
+    requires o matches Some(v) ==> p.requires((&v,)),
+    ensures match o { Some(v) => (r == Some(v) && p.ensures((&v,), true)) || (r.is_none() && p.ensures((&v,), false)), None => r.is_none() };
+pub assume_specification<T> [bool::then_some] (b: bool, t: T) -> (r: Option<T>)
+    ensures r == (if b { Some(t) } else { None::<T> });
+pub assume_specification<T: PartialEq> [<[T]>::contains] (s: &[T], x: &T) -> (r: bool)
+    ensures r == s@.contains(*x);
 pub assume_specification<T, E> [Option::<core::result::Result<T, E>>::transpose] (o: Option<core::result::Result<T, E>>) -> (r: core::result::Result<Option<T>, E>)
     ensures r == (match o { Some(Ok(x)) => Ok::<Option<T>,E>(Some(x)), Some(Err(e)) => Err::<Option<T>,E>(e), None => Ok::<Option<T>,E>(None) });
 #[verifier::external_type_specification]
@@ -71,11 +78,20 @@ pub mod ctap2 {
     use super::*;
     pub mod extensions {
         use super::*;
+        use std::collections::HashMap;
         //@ source xprf passkey-types/src/ctap2/extensions/prf.rs
+        //@ source xhm passkey-types/src/ctap2/extensions/hmac_secret.rs
         //@ extract xprf struct AuthenticatorPrfValues
         //@   noderive
         //@ extract xprf struct AuthenticatorPrfMakeOutputs
         //@   noderive
+        //@ extract xprf struct AuthenticatorPrfInputs
+        //@   noderive
+        #[verifier::external_body] pub struct CborValue { _p: u8 }
+        //@ extract xhm struct HmacGetSecretInput
+        //@   deep
+        //@   noderive
+        //@   replace `ciborium::value::Value` => `CborValue`
     }
     pub mod get_info {
         use super::*;
@@ -88,12 +104,16 @@ pub mod ctap2 {
         //@ extract gitypes struct Options
         //@ extract gitypes enum Version
         //@ extract gitypes enum Extension
+        //@   derive PartialEq Eq
     }
     pub mod make_credential {
         use super::*;
-        use super::extensions::AuthenticatorPrfMakeOutputs;
+        use super::extensions::{AuthenticatorPrfMakeOutputs, AuthenticatorPrfInputs, HmacGetSecretInput};
         //@ source mctypes passkey-types/src/ctap2/make_credential.rs
         //@ extract mctypes struct UnsignedExtensionOutputs
+        //@ extract mctypes struct ExtensionInputs
+        //@   noderive
+        //@ extract mctypes impl ExtensionInputs
     }
 }
 // ---- passkey-authenticator: discoverability (real text; also verified in unit V-CER)
@@ -139,14 +159,30 @@ pub mod ext_file {
 }
 pub mod prf_file {
     use super::*;
-    use crate::ctap2::extensions::AuthenticatorPrfValues;
-    use crate::webauthn::{AuthenticationExtensionsPrfInputs, AuthenticationExtensionsPrfValues};
+    use crate::ctap2::extensions::{AuthenticatorPrfValues, AuthenticatorPrfInputs};
+    use crate::ctap2::{get_info, make_credential};
+    use crate::webauthn::{AuthenticationExtensionsPrfInputs, AuthenticationExtensionsPrfValues, AuthenticationExtensionsClientInputs};
+    // what convert_eval_to_ctap yields for one WebAuthn PRF value pair (C09: the salt is SHA-256("WebAuthn PRF" || 0 || input),
+    // or the 32-byte input itself for pre-hashed inputs)
+    pub open spec fn conv_ok(eval: AuthenticationExtensionsPrfValues, should_hash: bool) -> bool {
+        should_hash || (eval.first@.len() == 32 && (eval.second matches Some(s) ==> s@.len() == 32))
+    }
+    pub open spec fn conv_rel(eval: AuthenticationExtensionsPrfValues, should_hash: bool, v: AuthenticatorPrfValues) -> bool {
+        if should_hash {
+            v.first@ == prf_salt(eval.first@) && (match eval.second { Some(s) => (v.second matches Some(x) && x@ == prf_salt(s@)), None => v.second.is_none() })
+        } else {
+            v.first@ == eval.first@ && (match eval.second { Some(s) => (v.second matches Some(x) && x@ == s@), None => v.second.is_none() })
+        }
+    }
+    pub open spec fn supports(exts: Seq<get_info::Extension>, e: get_info::Extension) -> bool { exts.contains(e) }
     //@ source prf passkey-client/src/extensions/prf.rs
     type Result<T> = ::std::result::Result<T, WebauthnError>;
     //@ extract prf fn make_salt
     //@ extract prf fn validate_no_eval_by_cred
     //@ extract prf fn convert_eval_to_ctap
     //@   rule R4c
+    //@ extract prf fn make_ctap_extension
+    //@ extract prf fn registration_prf_to_ctap2_input
 }
 } // verus!
 fn main() {}
